@@ -81,6 +81,20 @@ def _drop_partial_last_line(path):
         open(path, "wb").write(data[:k + 1] if k >= 0 else b"")
 
 
+def _mark_garbled_lines(path):
+    """a process that was stopped by a signal while it was writing (watchdog, sanitizer) can leave a torn record in the MIDDLE of its trace, followed
+    by the fatal record of the handler: a torn record becomes a record no specification accepts instead of a JSON error of the validator"""
+    try:
+        lines = open(path).read().split("\n")
+    except OSError:
+        return
+    bad = [i for i, ln in enumerate(lines) if ln.strip() and not (ln.startswith("{") and ln.rstrip().endswith("}"))]
+    if bad:
+        for i in bad:
+            lines[i] = '{"e":"garbled","o":0,"a":0,"b":0,"r":0,"lv":0}'
+        open(path, "w").write("\n".join(lines))
+
+
 def run_interp(exe, scripts_file, trace_file, timeout=1800, args=()):
     """Replay scripts on the real code. Returns (rc, stderr_text)."""
     errf = trace_file + ".err"
@@ -98,6 +112,7 @@ def run_interp(exe, scripts_file, trace_file, timeout=1800, args=()):
         raise MachineryError("interpreter %s refused its input: %s" % (os.path.basename(exe), err[-500:]))
     if rc != 0:
         _drop_partial_last_line(trace_file)
+        _mark_garbled_lines(trace_file)
     if rc != 0:
         # abnormal end: an event no specification matches marks the spot
         with open(trace_file, "a") as f:
